@@ -15,10 +15,15 @@ def run_case(s, ro_txt, kind, kw, mid=2, pretty=False, ctx=None):
     return s.step(ro, msg, ctx)
 
 
-def story_grid(s, nmax, layouts=LAYOUTS, pretties=(False, True), kmax=3, full=True, timed=(True,)):
+HOSTILE_NAMES = ['S1', 's1', 'S1 ', 'S10', ' S1', 'S01']
+
+
+def story_grid(s, nmax, layouts=LAYOUTS, pretties=(False, True), kmax=3, full=True, timed=(True,),
+               names=None):
     idx = 0
+    names = names or STORY_NAMES
     for n in range(0, nmax + 1):
-        S = STORY_NAMES[:n]
+        S = names[:n]
         for layout in layouts:
             for pretty in pretties:
                 for tm in timed:
@@ -31,10 +36,10 @@ def story_grid(s, nmax, layouts=LAYOUTS, pretties=(False, True), kmax=3, full=Tr
     s.hist['grid_cases_total'] = idx
 
 
-def item_grid(s, nmax, pretties=(False, True), kmax=3, full=True, inters=(False, True)):
+def item_grid(s, nmax, pretties=(False, True), kmax=3, full=True, inters=(False, True), item_names=None):
     idx = 0
     for n in range(0, nmax + 1):
-        I = ['i%d' % k for k in range(n)]
+        I = (item_names or ['i%d' % k for k in range(n)])[:n]
         for inter in inters:
             for pretty in pretties:
                 for pos in (0, 1, 2):          # addressed story first / middle / last
@@ -43,7 +48,11 @@ def item_grid(s, nmax, pretties=(False, True), kmax=3, full=True, inters=(False,
                     stories = []
                     for k, nm in enumerate(names):
                         cnt = n if k == pos else 2
-                        stories.append(gen.simple_story(nm, cnt, item_prefix='i', inter=inter))
+                        st = gen.simple_story(nm, cnt, item_prefix='i', inter=inter)
+                        if item_names:
+                            for el, newid in zip([c for c in st if c.tag == 'item'], item_names):
+                                el.find('itemID').text = newid
+                        stories.append(st)
                     ro_txt = B.ro_doc('RO', 1, stories, ed_start='2020-01-01T12:30:00', pretty=pretty)
                     for kind, kw in gen.item_grid_messages(names[pos], I, kmax=kmax, full=full):
                         idx += 1
@@ -457,3 +466,34 @@ def resend_after_reorder(s, nmax=4, layouts=('none', 'before', 'between')):
                     for x in Abs(cur).story_ids:
                         ro, err, v, ev = s.step(ro, send(x, 'again'), ctx)
     s.hist['resend_after_reorder_cases'] = idx
+
+
+# --------------------------------------------------------------------------
+# the repository's fixtures as seeds: every message fixture merged into every
+# roCreate fixture (verbatim), judged by the same relation
+
+def fixtures_workload(s):
+    import os
+    from ..attach import repo_root
+    fixdir = os.path.join(repo_root(), 'tests', 'mock_mos')
+    if not os.path.isdir(fixdir):
+        s.notes.append('fixture directory not found; fixture workload skipped')
+        return
+    names = sorted(f for f in os.listdir(fixdir) if f.endswith('.xml'))
+    creates = [f for f in names if f.startswith('roCreate')]
+    idx = 0
+    for c in creates:
+        ctext = open(os.path.join(fixdir, c), encoding='utf-8').read()
+        for m in names:
+            if m.startswith('roCreate') or m.startswith('roInvalid'):
+                continue
+            idx += 1
+            if not s.mine(idx):
+                continue
+            mtext = open(os.path.join(fixdir, m), encoding='utf-8').read()
+            try:
+                ro = s.load(ctext)
+            except Exception:
+                continue
+            s.step(ro, mtext, {'fixture': (c, m)})
+    s.hist['fixture_cases'] = idx
